@@ -77,9 +77,9 @@ def scopes_strategy():
 
 def raising_strategy():
     return st.builds(
-        lambda p, mask: {"program": p, "mask": sorted(set(mask))},
-        P.programs(max_nodes=12, max_depth=5, kinds=["with", "finish", "finish_inside", "run", "task", "gen_close", "gen_next", "gen_throw", "typed"]),
+        lambda mask, p: {"program": p, "mask": sorted(set(mask))},
         st.lists(st.integers(0, 25), min_size=1, max_size=6),
+        P.programs(max_nodes=12, max_depth=5, kinds=["with", "finish", "finish_inside", "run", "task", "gen_close", "gen_next", "gen_throw", "typed"]),
     )
 
 
